@@ -197,6 +197,44 @@ def accept(kind: str, P: int, seplen: int, limit: int, cuts: int, path: str, pre
     return scenario
 
 
+JSON_DOCS = [b'{"a":1}', b"[1,2]", b'"x y"', b"[[],{}]", b'{"k":[]}']
+
+
+def accept_json(mode: str, limit: int, order: list, cuts: int):
+    """JSON documents that are each safely under the limit (len + 2 <= limit), pipelined so that the whole stream is much longer
+    than the limit, cut at solver-chosen positions: every document is delivered, none is rejected for its size.
+    (json's C decoder: the documents come from a fixed corpus, the chunking is the solver's.)"""
+
+    def scenario(S):
+        ser = JSONSerializer(limit=limit, use_lines=(mode == "jsonl"))
+        docs = [JSON_DOCS[i % len(JSON_DOCS)] for i in order]
+        for d in docs:
+            assert len(d) + 2 <= limit
+        tail = b"\n" if mode == "jsonl" else b""
+        stream = b"".join(d + tail for d in docs)
+        assert len(stream) > 2 * limit
+        cs = L.sorted_cuts(S, cuts, len(stream))
+        pieces = L.split_at(stream, cs)
+        try:
+            ev, _left = L.drive_copy(StreamProtocol(ser), pieces)
+        except Exception as e:  # noqa: BLE001
+            return Outcome(ok=False, skeleton=("exc", type(e).__name__), tags=("exception",), detail={"exception": repr(e)})
+        import json as _json
+
+        want = [_json.loads(d) for d in docs]
+        ok = len(ev) == len(want)
+        if ok:
+            for (k, v), w in zip(ev, want):
+                if k != "pkt" or v != w:
+                    ok = False
+        tags = ["at-margin"] if any(len(d) + 2 == limit for d in docs) else []
+        if cuts:
+            tags.append("chunked")
+        return Outcome(ok=ok, skeleton=L.skel(ev), tags=tuple(tags), detail={"events": ev, "documents": docs, "limit": limit})
+
+    return scenario
+
+
 def shards(tier: str):
     out = []
     quick = tier == "quick"
@@ -237,4 +275,8 @@ def shards(tier: str):
                     for path in ("copy", "buf"):
                         add(f"accept/{kind}/S{seplen}/L{limit}/P{P}/{path}", "accept", dict(kind=kind, P=P, seplen=seplen, limit=limit, cuts=2, path=path), cost=3 ** (P + 2))
                         add(f"accept/{kind}/S{seplen}/L{limit}/P{P}/{path}/pre", "accept", dict(kind=kind, P=P, seplen=seplen, limit=limit, cuts=2 if quick else 3, path=path, pre=margin), cost=3 ** (P + margin + 3))
+    # JSON (line and raw mode): pipelined documents, each safely under the limit, stream much longer than the limit
+    for mode in ("jsonl", "jsonraw"):
+        for limit, order in ((9, [0, 1, 2, 0]), (10, [3, 4, 0, 1])) if quick else ((9, [0, 1, 2, 0]), (10, [3, 4, 0, 1]), (12, [4, 3, 2, 1, 0])):
+            add(f"accept/{mode}/L{limit}/{'-'.join(map(str, order))}", "accept_json", dict(mode=mode, limit=limit, order=order, cuts=2), cost=400)
     return out
